@@ -182,6 +182,13 @@ def _per_sequence(N, alpha, beta, ops, rnd):
                 p = max(p, 1e-5)
                 prio[j] = p
                 maxseen = max(maxseen, p)
+        elif op[0] == "setp":
+            stored = [j for j in range(N) if prio[j] is not None]
+            ps = [op[2] if j == op[1] else 2.0 for j in stored]
+            buf.update_priorities(torch.tensor(stored), torch.tensor(ps, dtype=torch.float64))
+            for j, p in zip(stored, ps):
+                prio[j] = p
+                maxseen = max(maxseen, p)
         elif op[0] == "sample" and len(buf) > 0:
             k = op[1]
             # controlled variates, including the ends of each stratum
@@ -222,6 +229,17 @@ def per(payload):
         msg = _per_sequence(payload["N"], payload["alpha"], payload["beta"], [tuple(o) for o in payload["ops"]], rnd)
         return {"status": "fail" if msg else "pass", "cases": 1, "detail": msg, "input": payload}
     cases = 0
+    # systematic part: every fill level, every position of the strictly smallest / largest priority
+    for N in (1, 2, 3, 4, 5):
+        for fill in range(1, N + 3):
+            for special in range(min(fill, N)):
+                for lowhigh in (0.25, 7.0):
+                    ops = [("add", 1)] * fill + [("setp", special, lowhigh)] + [("sample", min(fill, N))]
+                    cases += 1
+                    msg = _per_sequence(N, 0.6, 0.4, ops, rnd)
+                    if msg:
+                        return {"status": "fail", "cases": cases, "detail": msg, "witness_key": msg.split(":")[-1][:60],
+                                "input": dict(N=N, alpha=0.6, beta=0.4, ops=ops)}
     n = 25 if payload.get("tier") != "thorough" else 150
     for N in (1, 2, 3, 4, 5, 8):
         for _ in range(n):
